@@ -5,6 +5,7 @@
 // any non-standard exception) terminates the process and is bucketed by the driver (lib/fuzzdrv.py).
 #include "fix.hh"
 #include "cards.hh"
+#include "refpgp.hh"
 #include <dirent.h>
 using namespace vf;
 typedef CallasDonnerhackeFinneyShawThayerRFC4880 PGP;
@@ -108,6 +109,59 @@ static void pgp_seeds() {
     add_seed(T_PACKETS, pgp_str(uid) + pgp_str(lit) + pgp_str(pub)); add_seed(T_PUBKEYBLOCK, pgp_str(all)); add_seed(T_KEYRING, pgp_str(all)); add_seed(T_MESSAGE, pgp_str(lit)); add_seed(T_MESSAGE, pgp_str(seipd)); add_seed(T_PRVKEYBLOCK, pgp_str(all));
     std::string arm; PGP::ArmorEncode(TMCG_OPENPGP_ARMOR_PUBLIC_KEY_BLOCK, all, arm); add_seed(T_ARMOR, arm); add_seed(T_RADIX64, "aGVsbG8gd29ybGQ="); add_seed(T_SIGNATURE, pgp_str(uid)); add_seed(T_SIGNATURES, pgp_str(uid));
     gcry_mpi_release(a); gcry_mpi_release(n); }
+  // Structure seeds written with the independent reference encoder (lib/refpgp.hh): packet forms the library cannot emit itself or
+  // that need key material (v5 keys, secret keys plain and protected, every public-key algorithm, signatures v3/v4/v5 with subpackets,
+  // session key packets, AEAD, one-pass, old-format and partial lengths).  The numbers have no cryptographic meaning.
+  { using namespace refpgp; typedef refpgp::Bytes B; auto S = [](const B &b) { return std::string(b.begin(), b.end()); };
+    auto big = [](unsigned bits, unsigned salt) -> mpz_class { mpz_class v = 1; v <<= (bits - 1); for (unsigned i = 0; i < bits / 29; i++) v += mpz_class(0x1234567 + 977 * salt + i) << (29 * i); v |= 1; return v; };
+    const B oid_p256 = {0x2A, 0x86, 0x48, 0xCE, 0x3D, 0x03, 0x01, 0x07}, oid_ed = {0x2B, 0x06, 0x01, 0x04, 0x01, 0xDA, 0x47, 0x0F, 0x01}, oid_cv = {0x2B, 0x06, 0x01, 0x04, 0x01, 0x97, 0x55, 0x01, 0x05, 0x01};
+    mpz_class pt256 = (mpz_class(4) << 512) + big(500, 3), pt255 = (mpz_class(0x40) << 256) + big(250, 4);
+    struct KM { unsigned algo; B pub; std::vector<mpz_class> sec; };
+    std::vector<KM> kms = {
+      {1, mpis({big(1024, 1), 65537}), {big(1000, 2), big(512, 3), big(512, 4), big(500, 5)}},
+      {17, mpis({big(1024, 6), big(160, 7), big(1000, 8), big(1001, 9)}), {big(150, 10)}},
+      {16, mpis({big(1024, 11), 5, big(1002, 12)}), {big(300, 13)}},
+      {19, ecc_material(oid_p256, pt256, false, 0, 0), {big(250, 14)}},
+      {22, ecc_material(oid_ed, pt255, false, 0, 0), {big(252, 15)}},
+      {18, ecc_material(oid_cv, pt255, true, 8, 7), {big(252, 16)}}};
+    B keyid = {1, 2, 3, 4, 5, 6, 7, 8}, salt = {9, 8, 7, 6, 5, 4, 3, 2}, iv16(16, 0x5A), left = {0xAB, 0xCD};
+    B uid = packet(13, B{'B', 'o', 'b', ' ', '<', 'b', '@', 'x', '>'});
+    // signatures
+    B hashed; put(hashed, subpacket(2, false, time_body(1790000000))); put(hashed, subpacket(27, false, B{3})); put(hashed, subpacket(9, false, time_body(86400)));
+    put(hashed, subpacket(11, false, B{9, 8, 7})); put(hashed, subpacket(21, false, B{10, 9, 8})); put(hashed, subpacket(22, false, B{2, 1})); put(hashed, subpacket(30, false, B{1}));
+    put(hashed, subpacket(33, false, cat(B{4}, B(20, 0x11)))); put(hashed, subpacket(20, false, notation_body(true, B{'a', '@', 'b'}, B{'v'}))); put(hashed, subpacket(26, true, B{'h', 't', 't', 'p', ':', '/', '/', 'x'}));
+    put(hashed, subpacket(3, false, time_body(1000))); put(hashed, subpacket(7, false, B{1})); put(hashed, subpacket(23, false, B{0x80})); put(hashed, subpacket(25, false, B{1})); put(hashed, subpacket(28, false, B{'b', '@', 'x'}));
+    put(hashed, subpacket(34, false, B{2, 1})); put(hashed, subpacket(12, false, cat(B{0x80, 17}, B(20, 0x22)))); put(hashed, subpacket(29, false, B{0, 'r'})); put(hashed, subpacket(31, false, cat(B{17, 8}, B(32, 0x33))));
+    B unhashed = subpacket(16, false, keyid);
+    auto sig = [&](unsigned ver, unsigned type, unsigned pk, const B &m) { return packet(2, sig4_body(sig4_hashed_part(ver, type, pk, 8, hashed), unhashed, left, m)); };
+    B sig_rsa = sig(4, 0x13, 1, mpis({big(1020, 20)})), sig_dsa = sig(4, 0x00, 17, mpis({big(159, 21), big(158, 22)})), sig_ed = sig(4, 0x18, 22, mpis({big(255, 23), big(254, 24)})), sig_v5 = sig(5, 0x01, 19, mpis({big(255, 25), big(254, 26)}));
+    B emb = subpacket(32, false, B(sig_rsa.begin() + 3, sig_rsa.end())); B hashed2 = hashed; put(hashed2, emb); B sig_emb = packet(2, sig4_body(sig4_hashed_part(4, 0x18, 1, 10, hashed2), unhashed, left, mpis({big(1019, 27)})));
+    B sig_v3 = packet(2, sig3_body(0x00, 1790000000, keyid, 17, 2, left, mpis({big(159, 28), big(157, 29)})));
+    for (const B &x : {sig_rsa, sig_dsa, sig_ed, sig_v5, sig_emb, sig_v3}) { add_seed(T_SIGNATURE, S(x)); add_seed(T_PACKETS, S(x)); }
+    add_seed(T_SIGNATURES, S(cat(cat(sig_rsa, sig_dsa), sig_ed)));
+    { std::string arm; tmcg_openpgp_octets_t o(sig_dsa.begin(), sig_dsa.end()); PGP::ArmorEncode(TMCG_OPENPGP_ARMOR_SIGNATURE, o, arm); add_seed(T_ARMOR, arm); add_seed(T_SIGNATURE, arm); }
+    // keys: public / secret, primary / sub, v4 / v5, plain / protected
+    for (size_t k = 0; k < kms.size(); k++) for (unsigned ver = 4; ver <= 5; ver++) {
+      const KM &m = kms[k]; B pubbody = key_body(ver, 1790000000, m.algo, m.pub), secm = mpis(m.sec);
+      B plain; put8(plain, 0); if (ver == 5) { put8(plain, 0); put32(plain, secm.size()); } put(plain, secm); put16(plain, sum16(secm));
+      B prot; { B spec = s2k_specifier(3, 8, salt, 96), enc = cfb_encrypt(GCRY_CIPHER_AES256, s2k(8, 3, salt, 96, "pw", 32), iv16, cat(secm, digest(GCRY_MD_SHA1, secm)));
+        put8(prot, 254); if (ver == 5) put8(prot, 1 + spec.size() + iv16.size()); put8(prot, 9); put(prot, spec); put(prot, iv16); if (ver == 5) put32(prot, enc.size()); put(prot, enc); }
+      B pub = packet(6, pubbody), sub = packet(14, pubbody), sec = packet(5, cat(pubbody, plain)), ssb = packet(7, cat(pubbody, plain)), secp = packet(5, cat(pubbody, prot)), ssbp = packet(7, cat(pubbody, prot));
+      B pubblock = cat(cat(cat(pub, uid), sig_rsa), cat(sub, sig_ed)), secblock = cat(cat(cat(sec, uid), sig_rsa), cat(ssb, sig_ed)), secblockp = cat(cat(cat(secp, uid), sig_rsa), cat(ssbp, sig_ed));
+      add_seed(T_PACKETS, S(cat(pub, sec))); add_seed(T_PACKETS, S(cat(ssbp, sub))); add_seed(T_PUBKEYBLOCK, S(pubblock)); add_seed(T_KEYRING, S(cat(pubblock, pubblock)));
+      add_seed(T_PRVKEYBLOCK, S(secblock)); add_seed(T_PRVKEYBLOCK, S(secblockp));
+      if (k < 2) { std::string arm; tmcg_openpgp_octets_t o(secblock.begin(), secblock.end()); PGP::ArmorEncode(TMCG_OPENPGP_ARMOR_PRIVATE_KEY_BLOCK, o, arm); add_seed(T_ARMOR, arm); add_seed(T_PRVKEYBLOCK, arm);
+        std::string arm2; tmcg_openpgp_octets_t o2(pubblock.begin(), pubblock.end()); PGP::ArmorEncode(TMCG_OPENPGP_ARMOR_PUBLIC_KEY_BLOCK, o2, arm2); add_seed(T_PUBKEYBLOCK, arm2); add_seed(T_KEYRING, arm2); } }
+    // messages
+    B lit = packet(11, literal_body('b', "f.txt", 1790000000, B{'h', 'i', '\n'})), litold = old_packet(11, literal_body('t', "", 0, B{'x'}), 0), litpart = partial_packet(11, literal_body('u', "n", 1, B(700, 'y')), {9});
+    B pk_rsa = packet(1, pkesk_body(keyid, 1, mpis({big(1023, 30)}))), pk_elg = packet(1, pkesk_body(keyid, 16, mpis({big(1022, 31), big(1021, 32)}))), pk_ecdh = packet(1, pkesk_body(keyid, 18, cat(mpi(pt255), cat(B{48}, B(48, 0x44)))));
+    B sk4 = packet(3, skesk4_body(9, s2k_specifier(3, 8, salt, 96), B())), sk4e = packet(3, skesk4_body(9, s2k_specifier(1, 2, salt, 0), B(33, 0x55))), sk5 = packet(3, skesk5_body(9, 2, s2k_specifier(3, 8, salt, 96), B(15, 0x66), B(48, 0x77)));
+    B seipd = packet(18, seipd_body(B(60, 0x21))), sed = packet(9, B(40, 0x22)), aead = packet(20, aead_body(9, 2, 0, B(15, 0x23), B(64 + 16 + 16, 0x24))), aeadx = packet(20, aead_body(7, 1, 1, B(16, 0x25), B(40, 0x26)));
+    B onep = packet(4, onepass_body(0, 8, 17, keyid, 1)), comp = packet(8, cat(B{0}, lit)), compz = packet(8, B{1, 0x03, 0x00}), marker = packet(10, B{'P', 'G', 'P'}), trust = packet(12, B{1, 2}), uat = packet(17, B{5, 1, 1, 0, 0, 0}), mdc = packet(19, B(20, 0x27));
+    for (const B &x : {cat(pk_rsa, seipd), cat(pk_elg, seipd), cat(pk_ecdh, aead), cat(sk4, seipd), cat(sk4e, sed), cat(sk5, aead), cat(sk4, aeadx), cat(cat(onep, lit), sig_dsa), cat(marker, comp), compz, litold, litpart, cat(sig_dsa, lit)}) { add_seed(T_MESSAGE, S(x)); add_seed(T_PACKETS, S(x)); }
+    add_seed(T_PACKETS, S(cat(cat(trust, uat), cat(mdc, marker))));
+    { std::string arm; B m = cat(pk_rsa, seipd); tmcg_openpgp_octets_t o(m.begin(), m.end()); PGP::ArmorEncode(TMCG_OPENPGP_ARMOR_MESSAGE, o, arm); add_seed(T_ARMOR, arm); add_seed(T_MESSAGE, arm); }
+  }
 }
 
 static bool stdexc = false; // set when a std::exception was the (clean) refusal
